@@ -150,7 +150,38 @@ pub struct NatWorker {
     /// (Code|form) pairs that answered "unimplemented" on the pinned tree: an Err from one of
     /// them is a by-design rejection whatever its wording
     pub pinned_unimplemented: std::collections::BTreeSet<String>,
+    /// machines with a history behind them (hidden interpreter state differs from a new machine's:
+    /// call-stack bookkeeping, trace, instruction count); architectural state equals `base`
+    pub aged: Vec<(&'static str, Axecutor)>,
+    /// what went wrong while building `aged` (reported as a finding by the sweeps, not here)
+    pub aging_problem: Option<String>,
+    /// 0 = new machine, k = aged[k-1]; the native side of the last case is reused when k > 0
+    pub aged_mode: usize,
 }
+
+/// Histories for the aged machines: (offset into the code page, bytes, rip expected after the
+/// step as an offset into the code page). "returned": one return more than calls; "nested":
+/// three calls deep.
+type AgingStep = (u64, &'static [u8], u64);
+const AGING: &[(&str, &[AgingStep])] = &[
+    (
+        "returned",
+        &[
+            (0x800, &[0x68, 0x20, 0x08, 0x00, 0x40], 0x805), // push CODE+0x820
+            (0x805, &[0xC3], 0x820),                         // ret
+            (0x820, &[0xEB, 0x00], 0x822),                   // jmp +0
+        ],
+    ),
+    (
+        "nested",
+        &[
+            (0x800, &[0xE8, 0x0B, 0x00, 0x00, 0x00], 0x810), // call +0xb
+            (0x810, &[0xE8, 0x0B, 0x00, 0x00, 0x00], 0x820),
+            (0x820, &[0xE8, 0x0B, 0x00, 0x00, 0x00], 0x830),
+            (0x830, &[0xEB, 0x00], 0x832),
+        ],
+    ),
+];
 
 const EMU_REGIONS: [(Region, u64, u32); 7] = [
     (Region::Code, CODE, 5),
@@ -172,13 +203,59 @@ impl NatWorker {
                 .expect("area");
             base.mem_prot(*addr, *prot).expect("prot");
         }
+        let mut aging_problem = None;
+        let mut aged = vec![];
+        for (name, prog) in AGING {
+            match Self::age(&base, &stub.pristine[Region::Stack as usize], prog) {
+                Ok(ax) => aged.push((*name, ax)),
+                Err(e) => {
+                    aging_problem.get_or_insert(format!("{name}: {e}"));
+                }
+            }
+        }
         NatWorker {
             stub,
             base,
             fac: InstructionInfoFactory::new(),
             last_native: None,
             pinned_unimplemented: load_pinned_unimplemented(),
+            aged,
+            aging_problem,
+            aged_mode: 0,
         }
+    }
+
+    /// Runs a short straight-line history on a copy of `base` and puts code, stack, registers
+    /// back, so that only state the guest cannot see differs from `base`.
+    fn age(base: &Axecutor, stack_pristine: &[u8], prog: &[AgingStep]) -> Result<Axecutor, String> {
+        let mut ax = base.clone();
+        let start = CODE + 0x800;
+        for (off, bytes, _) in prog.iter() {
+            Self::emu_poke(&mut ax, CODE + off, bytes);
+        }
+        ax.reg_write_64(SR::RSP, STACK + 0x800).unwrap();
+        ax.reg_write_64(SR::RIP, start).unwrap();
+        for (k, (_, _, want)) in prog.iter().enumerate() {
+            match emu::step(&mut ax) {
+                StepOut::Ok(true) => {} // step() answers "may continue"
+                o => return Err(format!("history step {k} ended with {}", o.brief())),
+            }
+            let rip = emu::rip(&ax);
+            if rip != CODE + *want {
+                return Err(format!("history step {k} left rip {rip:#x}, expected {:#x}", CODE + *want));
+            }
+        }
+        if ax.verif_finished() {
+            return Err("history left the machine finished".into());
+        }
+        Self::emu_poke(&mut ax, CODE, &vec![0xCCu8; PAGE as usize]);
+        Self::emu_poke(&mut ax, STACK, stack_pristine);
+        for k in 0..16 {
+            ax.reg_write_64(GPR64[k], base.reg_read_64(GPR64[k]).unwrap()).unwrap();
+        }
+        ax.reg_write_64(SR::RIP, base.reg_read_64(SR::RIP).unwrap()).unwrap();
+        ax.verif_set_rflags(base.verif_rflags());
+        Ok(ax)
     }
 
     fn emu_poke(ax: &mut Axecutor, addr: u64, bytes: &[u8]) {
@@ -194,7 +271,7 @@ impl NatWorker {
     }
 
     pub fn build_emu(&self, c: &Case) -> Axecutor {
-        let mut ax = self.base.clone();
+        let mut ax = if self.aged_mode > 0 { self.aged[self.aged_mode - 1].1.clone() } else { self.base.clone() };
         Self::emu_poke(&mut ax, CODE + c.off as u64, &c.bytes);
         for (a, b) in &c.pokes {
             Self::emu_poke(&mut ax, *a, b);
@@ -208,6 +285,35 @@ impl NatWorker {
         ax.write_fs(c.sigma.fs);
         ax.write_gs(c.sigma.gs);
         ax
+    }
+
+    /// The case on a new machine, then (control transfers and stack instructions only) on every
+    /// machine with a history; of the latter only differences the new machine did not show.
+    pub fn run_with_histories(&mut self, c: &Case) -> (CaseResult, Vec<CaseResult>) {
+        let r = self.run(c);
+        let mut more = vec![];
+        let ro_poked = c.pokes.iter().any(|(a, _)| *a >= RO && *a < RO + PAGE);
+        if !r.is_data && !ro_poked {
+            for k in 1..=self.aged.len() {
+                self.aged_mode = k;
+                let mut r2 = self.run(c);
+                self.aged_mode = 0;
+                r2.diffs.retain(|d| !r.diffs.iter().any(|f| f.observable == d.observable));
+                more.push(r2);
+            }
+        }
+        (r, more)
+    }
+
+    /// key suffix and text of a history that did not run on this tree (control/stack cases only)
+    pub fn history_problem(&self, r: &CaseResult, c: &Case) -> Option<(String, String)> {
+        let ro_poked = c.pokes.iter().any(|(a, _)| *a >= RO && *a < RO + PAGE);
+        if r.is_data || ro_poked {
+            return None;
+        }
+        self.aging_problem
+            .as_ref()
+            .map(|p| (format!("{}|history|{}", r.subject, p.split(':').next().unwrap_or("")), p.clone()))
     }
 
     pub fn prepare_native(&mut self, c: &Case) {
@@ -236,9 +342,15 @@ impl NatWorker {
         }
         let an = analyze(&mut self.fac, &i);
         // native
-        self.prepare_native(c);
-        let n = self.stub.run(&c.sigma, an.names_xmm);
-        self.last_native = Some(n.clone());
+        let n = if self.aged_mode > 0 {
+            // same case again on a machine with a history: the native side has not moved since
+            self.last_native.clone().expect("aged run follows a plain run of the same case")
+        } else {
+            self.prepare_native(c);
+            let n = self.stub.run(&c.sigma, an.names_xmm);
+            self.last_native = Some(n.clone());
+            n
+        };
         // emulator
         let mut ax = self.build_emu(c);
         let e = emu::step(&mut ax);
@@ -319,9 +431,15 @@ impl NatWorker {
                 });
             }
         }
-        if ro_poked {
+        if ro_poked && self.aged_mode == 0 {
             self.stub.restore(Region::Ro as usize);
         }
+        let class = if self.aged_mode > 0 {
+            let a = format!("machine-with-history-{}", self.aged[self.aged_mode - 1].0);
+            if class.is_empty() { a } else { format!("{class},{a}") }
+        } else {
+            class
+        };
         CaseResult {
             bucket,
             diffs,
@@ -860,6 +978,7 @@ pub struct NatStats {
     pub native_noncanonical: u64,
     pub outcome_mismatch: u64,
     pub cases_with_diff: u64,
+    pub aged_runs: u64,
     pub ok_forms: BTreeSet<String>,
     pub unimpl_forms: BTreeSet<String>,
     pub seen_forms: BTreeSet<String>,
@@ -885,6 +1004,7 @@ impl NatStats {
             "native_noncanonical": self.native_noncanonical,
             "outcome_mismatch": self.outcome_mismatch,
             "cases_with_diff": self.cases_with_diff,
+            "aged_runs": self.aged_runs,
             "ok_forms": self.ok_forms,
             "unimpl_forms": self.unimpl_forms,
             "seen_forms": self.seen_forms,
@@ -903,6 +1023,7 @@ impl NatStats {
         self.native_noncanonical += v["native_noncanonical"].as_u64().unwrap_or(0);
         self.outcome_mismatch += v["outcome_mismatch"].as_u64().unwrap_or(0);
         self.cases_with_diff += v["cases_with_diff"].as_u64().unwrap_or(0);
+        self.aged_runs += v["aged_runs"].as_u64().unwrap_or(0);
         self.native_steps += v["native_steps"].as_u64().unwrap_or(0);
         for (f, set) in [
             ("ok_forms", &mut self.ok_forms),
